@@ -8,6 +8,8 @@ import (
 	"testing/synctest"
 
 	"github.com/VictoriaMetrics/VictoriaMetrics/lib/protoparser/common"
+
+	"kvassverif/sched"
 )
 
 var stopOnce sync.Once
@@ -29,6 +31,7 @@ func InBubble(t *testing.T, f func()) (problem string) {
 		}
 	}()
 	synctest.Test(t, func(t *testing.T) {
+		sched.ResetClock()
 		common.StartUnmarshalWorkers()
 		defer common.StopUnmarshalWorkers()
 		f()
